@@ -699,8 +699,6 @@ Proof.
     destruct Hin as [<- | []]; repeat split; reflexivity.
 Qed.
 
-Definition pt_on_line (r c : R) (pt : N * N) : Prop := on_line r c (fst pt) (snd pt).
-
 Lemma bar_points_evs : forall r c ops now (b : bar R),
   Forall (pt_on_line r c) (bar_points ops now b) -> Forall (ev_on_line r c) (bar_evs ops now b).
 Proof.
